@@ -276,7 +276,8 @@ fn find_vars(name: &str, proc_name: &str, program: &Program) -> Vec<Identifier> 
             ArrayAccess(a) => {
                 let mut idents = find_in_variable(&a.array, name);
                 if let Some(index) = &a.index {
-                    let new_idents = find_in_expression(index, name);
+                    // the index expression has its own reference offset
+                    let new_idents = find_in_expression(index, name).shift(index.offset);
                     idents.extend(new_idents);
                 }
                 idents
@@ -296,7 +297,9 @@ fn find_vars(name: &str, proc_name: &str, program: &Program) -> Vec<Identifier> 
                 idents.extend(new_idents);
                 idents
             }
-            _ => Vec::new(),
+            Bracketed(b) => find_in_expression(&b.expr, name),
+            Unary(u) => find_in_expression(&u.expr, name),
+            IntLiteral(_) | Error(_) => Vec::new(),
         }
     }
 
